@@ -262,6 +262,23 @@ fn evaluate(
 	out
 }
 
+/// A release issued for a healthy lock the caller does not hold (any more) is also a violation of
+/// C05 in its own words ("never issues a release for a lock the calling thread does not hold").
+#[allow(clippy::too_many_arguments)]
+fn c05_twin(rep: &mut Report, rule: &str, detail: &str, kind: &str, api: Api, mode: Mode, case: &str, index: u64) {
+	if rule == "R2_released_twice" || rule == "R3_released_not_held" {
+		rep.violations.push(VRec {
+			prop: "C05".into(),
+			rule: "release_not_held_after_raw_panic".into(),
+			detail: format!("{rule}: {detail}"),
+			signature: format!("C05:release_not_held_after_raw_panic:{kind}:{}:{}", api.name(), mode.ch()),
+			case: case.to_string(),
+			index,
+			log: vec![],
+		});
+	}
+}
+
 pub fn run(cfg: &RunCfg) -> Report {
 	let max_n = if cfg.thorough { 4 } else { 3 };
 	let mut shapes = Vec::new();
@@ -317,6 +334,7 @@ pub fn run(cfg: &RunCfg) -> Report {
 						api,
 						lent,
 						panic: false,
+						unwind: false,
 					};
 					// ---- dry run
 					let (n_ops, dry) = solo(arena_spec, Policy::ReaderPref, false, |tc| {
@@ -375,6 +393,7 @@ pub fn run(cfg: &RunCfg) -> Report {
 							);
 							rep.nontrivial.insert(hash_str(&case));
 							for (rule, detail) in viol {
+								c05_twin(rep, &rule, &detail, &kind, api, mode, &case, i);
 								rep.violations.push(VRec {
 									prop: "C12".into(),
 									rule: rule.clone(),
@@ -422,6 +441,7 @@ pub fn run(cfg: &RunCfg) -> Report {
 							);
 							rep.nontrivial.insert(hash_str(&case));
 							for (rule, detail) in viol {
+								c05_twin(rep, &rule, &detail, &kind, api, mode, &case, i);
 								rep.violations.push(VRec {
 									prop: "C12".into(),
 									rule: rule.clone(),
@@ -508,6 +528,7 @@ pub fn run(cfg: &RunCfg) -> Report {
 								}
 							}
 							for (rule, detail) in viol {
+								c05_twin(rep, &rule, &detail, &kind, api, mode, &case, i);
 								rep.violations.push(VRec {
 									prop: "C12".into(),
 									rule: rule.clone(),
